@@ -530,7 +530,14 @@ func genTokens(o *Out, tier string, r *Rng) {
 			u := tokCavSpec{kind: 'L', lit: []byte(tokens.UserPrefix + string(user))}
 			t := tokCavSpec{kind: 'T', delta: Pick(r, []int64{-2, -1, 0, 1, 2, 3, 120, -120, 1 << 33})}
 			specs := []tokCavSpec{g, u, t}
-			switch r.Intn(14) {
+			switch r.Intn(16) {
+			case 14, 15: // a caveat REPLACED by a longer / shorter spelling of itself: every caveat is compared as a whole (seed C20-r6m1)
+				k := r.Intn(2)
+				if k == 0 {
+					specs[0] = tokCavSpec{kind: 'L', lit: []byte(Pick(r, []string{"gen = 10", "gen = 12", "gen = 1 ", "gen = 1.5", "gen = 1; admin = true", "gen = ", "gen =", "gen = 11", "gen = 01", " gen = 1"}))}
+				} else {
+					specs[1] = tokCavSpec{kind: 'L', lit: []byte(tokens.UserPrefix + string(user) + Pick(r, []string{"x", ":8448", " ", "\x00", ".evil.example"}))}
+				}
 			case 0: // as issued
 			case 1, 2: // reorder
 				for k := len(specs) - 1; k > 0; k-- {
